@@ -90,6 +90,7 @@ def verify_function(world, cname, prop, timeout_ms=QUICK_TIMEOUT_MS, source_over
         fn = world.fn_ast(rec)
         ex = Executor(world, fn_label=f"{prop}:{cname}")
         ex.contract = c
+        ex.max_inst_depth = c.inst_depth
         ex.cur_cls = q if q else dq
         st = State(world)
         env = {}
@@ -335,7 +336,17 @@ def solve_one(world, ob, timeout_ms, prober=None):
         rec["ms"] = int((time.time() - t0) * 1000)
         return rec
     s.add(z3.Not(ob.goal))
-    r = s.check()
+    # pass 1: E-matching only (model-based instantiation off): fast and enough for almost every valid obligation
+    s1 = z3.Solver()
+    s1.set("timeout", min(timeout_ms, 8000))
+    s1.set("smt.mbqi", False)
+    s1.set("smt.auto_config", False)
+    s1.add(s.assertions())
+    r = s1.check()
+    if r == z3.unsat:
+        rec["backend"] = "z3-5.1(api, e-matching)"
+    else:
+        r = s.check()
     if r == z3.unsat:
         rec["verdict"] = "proved"
     elif r == z3.sat:
@@ -409,6 +420,12 @@ class LemmaCtx:
         e.update(env)
         self.st.assume(self.ex.eval_spec(expr, self.st, e))
 
+    def narrow(self, name, cls):
+        """give a named value the static class `cls` (after an assume(typeis/isinstance ...))"""
+        v = self.env[name]
+        self.env[name] = V(v.kind, v.t, self.w.cls(cls))
+        return self.env[name]
+
     def assume_term(self, t):
         self.st.assume(t)
 
@@ -443,6 +460,7 @@ def verify_lemma(world, lname, prop, timeout_ms):
     lem = api.LEMMAS[lname]
     try:
         L = LemmaCtx(world, prop, lname, timeout_ms)
+        L.ex.max_inst_depth = lem.inst_depth
         lem.fn(L)
         L.ex.obligations.append(Obligation(f"{prop}:lemma:{lname}:cover", "cover", L.st.pc, z3.BoolVal(True), "lemma hypotheses are satisfiable"))
         res.trusted = sorted(L.ex.trusted_used)
